@@ -798,6 +798,7 @@ func (e *Engine) renameSites() {
 }
 
 func shortFile(f string) string {
+	f = strings.TrimPrefix(f, strings.TrimSuffix(repoRoot(), "/")+"/")
 	f = strings.TrimPrefix(f, "/repo/")
 	return f
 }
